@@ -140,6 +140,12 @@ class Check(object):
                 print("  signature: %s" % jdump(sig)[:600])
             if len(self.violations) > self.max_report:
                 print("  (+%d further violating cases not written out)" % (len(self.violations) - self.max_report))
+                hist = {}
+                for sig, _ in self.violations:
+                    k = jdump(sig)
+                    hist[k] = hist.get(k, 0) + 1
+                for k, n in sorted(hist.items(), key=lambda kv: -kv[1])[:12]:
+                    print("  %6d x %s" % (n, k[:300]))
         ev = {"property_id": self.prop, "tier": self.tier, "seed": self.seed, "level": level,
               "coverage": self.cov, "assumptions": self.assumptions, "wall_s": round(wall, 2),
               "violations": len(self.violations),
